@@ -59,6 +59,7 @@ DELAY_XML = """<mujoco><option timestep="0.004"/><worldbody>
 
 MODELS = {
   "rich": lambda: scenes.rich(),
+  "rich_tight": lambda: scenes.rich(),  # same model, capacities below the need: every history step records overflow bits
   "user_act": lambda: USER_XML,
   "delay": lambda: DELAY_XML,
   "mocap_eq": lambda: MOCAP_XML,
@@ -124,6 +125,8 @@ def scenarios(tier, seed):
   for model in MODELS:
     # reset_data re-instantiates its module="unique" kernels on every call (~1 s each): quick keeps depth 2 for two models
     depth = (2 if model in ("rich", "delay") else 1) if tier == "quick" else 3
+    if model == "rich_tight" and tier == "quick":
+      depth = 1
     for first in ALPHABET:
       for mi in range(len(MASKS)):
         out.append(dict(model=model, first=first, mask=mi, depth=depth, k=3 if tier == "quick" else 4, poison=None if tier == "quick" else 0xFF))
@@ -133,12 +136,17 @@ def scenarios(tier, seed):
 _M = {}
 
 
+CAPS = {"rich_tight": dict(naconmax=9, njmax=40)}
+
+
 def _model(name):
   import mujoco_warp as mjw
 
   if name not in _M:
     mjm = util.load(MODELS[name]())
-    _M[name] = (mjm, mjw.put_model(mjm))
+    m = mjw.put_model(mjm)
+    m.opt.warn_overflow = False
+    _M[name] = (mjm, m)
   return _M[name]
 
 
@@ -170,7 +178,9 @@ def execute(scn):
   seen = set()
   hs = hist.histories(ALPHABET, scn["depth"], first=scn["first"])
   # reference: never-used Data and its K follow-up steps
-  fresh = mjw.make_data(mjm, nworld=NW)
+  caps = CAPS.get(scn["model"], {})
+  fresh = mjw.make_data(mjm, nworld=NW, **caps)
+  fresh_overflow = fresh.overflow.numpy().copy()
   fresh_state = hist.get_integration_state(mjm, m, fresh)
   fresh_fields = _state_fields(fresh)
   _follow(mjm, m, fresh, scn["k"])
@@ -181,7 +191,7 @@ def execute(scn):
 
   def run(h, mask, do_reset):
     world.set_poison(scn["poison"])
-    d = mjw.make_data(mjm, nworld=NW)
+    d = mjw.make_data(mjm, nworld=NW, **caps)
     ctx = hist.Ctx(mjm, m, d)
     for op in h:
       OPS[op](ctx)
@@ -199,6 +209,7 @@ def execute(scn):
     twin_state = hist.get_integration_state(mjm, m, twin)
     seen.add(util.np_digest(twin_state))
     twin_contacts = [util.mjw_contacts(twin, w) for w in range(NW)]
+    twin_overflow = twin.overflow.numpy().copy()
     _follow(mjm, m, twin, scn["k"])
     twin_after = snap.take(m, twin, sleep=sleep)
     for mask in [MASKS[scn["mask"]]]:
@@ -210,7 +221,14 @@ def execute(scn):
       st = hist.get_integration_state(mjm, m, d)
       fields = _state_fields(d)
       cons = [util.mjw_contacts(d, w) for w in range(NW)]
+      ovf = d.overflow.numpy().copy()
       nv0 = len(c.violations)
+      for w in range(NW):
+        # the overflow flags are part of what a user observes: a reset world reports none, an untouched world keeps its own
+        if sel[w]:
+          c.equal(f"{tag}world {w} (selected) overflow flags vs fresh", ovf[w], fresh_overflow[w], vkey="selected:overflow")
+        else:
+          c.equal(f"{tag}world {w} (unselected) overflow flags vs no-reset twin", ovf[w], twin_overflow[w], vkey="unselected:overflow")
       for w in range(NW):
         if sel[w]:
           c.bits(f"{tag}world {w} (selected) integration state vs fresh", st[w], fresh_state[w], vkey="selected:state_vector")
@@ -242,6 +260,8 @@ def execute(scn):
       _follow(mjm, m, d, scn["k"])
       after = snap.take(m, d, sleep=sleep)
       for w in range(NW):
+        if caps:
+          break  # capacities below the need: the follow-up steps overflow, their result is not defined (C16); the flags above are
         ref = fresh_after if sel[w] else twin_after
         side = "selected" if sel[w] else "unselected"
         cc = util.Cmp()
